@@ -26,6 +26,7 @@ E2E(mo, aml) == [p2p |-> FALSE, mo |-> mo, aml |-> aml, keep |-> 1]
 P2P(mo, aml) == [p2p |-> TRUE, mo |-> mo, aml |-> aml, keep |-> 1]
 TI_PCfg_A == << E2E(FALSE, AnyId), E2E(FALSE, AnyId) >>
 TI_PCfg_B == << E2E(FALSE, AnyId), E2E(TRUE, AnyId) >>
+TI_PCfg_K == << E2E(FALSE, AnyId), [E2E(FALSE, AnyId) EXCEPT !.keep = 2] >>   \* record variant K: port 2 announces at twice the BMCA interval
 TI_PCfg_D == << E2E(FALSE, {2, 9}), P2P(FALSE, AnyId), E2E(TRUE, AnyId) >>
 
 VARIABLES st, l
@@ -43,7 +44,7 @@ AbsFlt(f) == [i \in 1..Len(f) |-> IF f[i].k = "meas" THEN [p |-> f[i].p, k |-> "
                                   ELSE [p |-> f[i].p, k |-> f[i].k]]
 FmlOf(s, p) == [i \in 1..Len(s.fml[p]) |->
                   [id |-> s.fml[p][i].id,
-                   msgs |-> [k \in 1..Len(s.fml[p][i].msgs) |-> [seq |-> s.fml[p][i].msgs[k].c.seq, age |-> s.fml[p][i].msgs[k].age, steps |-> s.fml[p][i].msgs[k].c.steps]]]]
+                   msgs |-> [k \in 1..Len(s.fml[p][i].msgs) |-> [seq |-> s.fml[p][i].msgs[k].c.seq, age |-> s.fml[p][i].msgs[k].age \div PCfg[p].keep, steps |-> s.fml[p][i].msgs[k].c.steps]]]]
 
 \* a restart of the recorded system (several runs are concatenated into one trace)
 TReset == /\ l <= Len(Rec) /\ Rec[l].e = "reset"
@@ -62,7 +63,7 @@ ActMis(o, e) ==
 SeqMis(o, e) == IF Len(o) # Len(e) THEN {"out.len"} ELSE UNION {ActMis(o[i], e[i]) : i \in 1..Len(e)}
 Mismatch(r, s2, res) ==
   M("pst", r.obs.pst # s2.pst) \cup M("ppi", r.obs.ppi # s2.ppi) \cup M("gm", r.obs.gm # s2.gm) \cup M("steps", r.obs.steps # s2.steps)
-  \cup M("tp", r.obs.tp # s2.tp) \cup M("path", r.obs.path # s2.path) \cup M("dds.so", r.obs.so # s2.so) \cup M("snap.mpd", r.obs.mpd # s2.mpd)
+  \cup M("tp", r.obs.tp # s2.tp) \cup M("path", r.obs.path # s2.path) \cup M("dds.so", r.obs.so # s2.so) \cup M("snap.mpd", r.obs.mpd # [p \in Ports |-> IF s2.mpd[p] = -1 THEN -1 ELSE s2.mpd[p] \div PCfg[p].keep])
   \cup M("snap.nseq", r.obs.nseq # [p \in Ports |-> <<s2.nseq[p].ann, s2.nseq[p].sync, s2.nseq[p].dreq, s2.nseq[p].pdreq>>])
   \cup M("snap.fml", r.obs.fml # [p \in Ports |-> FmlOf(s2, p)])
   \cup M("snap.rm", r.obs.rm # [p \in Ports |-> IF s2.pst[p] = "S" THEN s2.rm[p] ELSE NoPid])
